@@ -486,6 +486,16 @@ func encodeLossyWithAlpha(img image.Image, opts *EncoderOptions) ([]byte, []byte
 	// Propagate QMin/QMax for rate control clamping (matching C libwebp).
 	cfg.QMin = opts.QMin
 	cfg.QMax = resolveQMax(opts.QMax)
+	// The target search works inside [QMin, QMax]: start it from the clamped
+	// quality, so that a Quality outside the range behaves exactly as the bound.
+	if cfg.TargetSize > 0 || cfg.TargetPSNR > 0 {
+		if cfg.Quality < cfg.QMin {
+			cfg.Quality = cfg.QMin
+		}
+		if cfg.Quality > cfg.QMax {
+			cfg.Quality = cfg.QMax
+		}
+	}
 	// Propagate lossy encoding options from the public EncoderOptions to
 	// the internal EncodeConfig. Fields with sentinel values (< 0) keep
 	// the defaults already set by DefaultConfig().
